@@ -123,9 +123,40 @@ def reader_patterns(ctx):
     out = {}
     for tag, extras in (("no-extras", []), ("one-extra", ["extra"])):
         f = Folder(repo, p.module, p, {"extras": extras})
+        call = re_assign.value
+        helper = None
+        if isinstance(call, ast.Call) and isinstance(call.func, ast.Name):
+            r = repo.lookup_name(call.func.id, p.module, p)
+            from ..model import Def as _Def
+            if isinstance(r, _Def) and not r.is_lambda:
+                helper = r
+        if helper is not None:
+            # the pattern is compiled in a helper of the package (compiled once, cached ...): fold the helper's body with the folded arguments
+            hargs = {}
+            for prm, a in zip(helper.params, call.args):
+                hargs[prm] = f.eval(a)
+            for k in call.keywords:
+                if k.arg:
+                    hargs[k.arg] = f.eval(k.value)
+            hf = Folder(repo, helper.module, helper, hargs)
+            pat = None
+            for st in helper.node.body:
+                if isinstance(st, ast.Assign) and len(st.targets) == 1 and isinstance(st.targets[0], ast.Name):
+                    v = st.value
+                    if isinstance(v, ast.Call) and (dotted(v.func) or "") == "re.compile" and v.args:
+                        pat = hf.eval(v.args[0])
+                    else:
+                        try:
+                            hf.env[st.targets[0].id] = hf.eval(v)
+                        except Unfoldable:
+                            pass
+                elif isinstance(st, ast.Return) and isinstance(st.value, ast.Call) and (dotted(st.value.func) or "") == "re.compile" and st.value.args:
+                    pat = hf.eval(st.value.args[0])
+            if isinstance(pat, str):
+                out[tag] = pat
+            continue
         for nm in ("re_swc_cols", "re_swc_cols_str"):
             f.env[nm] = f.eval(value_of(p, nm))
-        call = re_assign.value
         pat = f.eval(call.args[0]) if isinstance(call, ast.Call) and call.args else None
         if isinstance(pat, str):
             out[tag] = pat
